@@ -8,7 +8,7 @@ from common import R, Rmat, Cx, fl, flmat, cfl, max_rel_err
 
 from common import wiring_pre_build as pre_build  # noqa: E402,F401
 
-LEAN_MODULES = ["PyomaVerif.Props.C05", "PyomaVerif.Props.C05Charpoly", "PyomaVerif.Props.C05E2E", "PyomaVerif.Mutants.C05", "PyomaVerif.Props.WiringRun", "PyomaVerif.Props.C05Stored", "PyomaVerif.Props.WiringStore", "PyomaVerif.Props.WiringClass", "PyomaVerif.Props.WiringCalls"]
+LEAN_MODULES = ["PyomaVerif.Props.C05", "PyomaVerif.Props.C05Charpoly", "PyomaVerif.Props.C05E2E", "PyomaVerif.Mutants.C05", "PyomaVerif.Props.WiringRun", "PyomaVerif.Props.C05Stored", "PyomaVerif.Props.WiringStore", "PyomaVerif.Props.WiringClass", "PyomaVerif.Props.WiringCalls", "PyomaVerif.Props.C05Table"]
 THEOREMS = [
     # call-site wiring of the class layer, regenerated from /repo on every run (translate_wiring.py)
     "PV.WiringRun.C05_run_plscf",
@@ -88,6 +88,15 @@ THEOREMS = [
     # depth round: the pLSCF pole table composed with the hard criteria -> the STORED tables
     "PV.C05Stored.C05_stored",
     "PV.C05Stored.Ex.stored",
+    # the loops of pLSCF / pLSCF_poles as model functions (Model/Poles.lean plscfAll, plscfPoles): column k = order k+1, one sign for constraint and basis, table width derived
+    "PV.Plscf.plscfAll_get",
+    "PV.Plscf.plscfPoles_get",
+    "PV.C05.C05_table_width",
+    "PV.C05.C05_e2e_table_model",
+    "PV.C05.e2e_all",
+    "PV.C05.e2e_poles",
+    "PV.C05.e2e_rec_model",
+    "PV.C05.e2e_table_model",
 ]
 RULE = (
     "correspondence: rmfd2ac on random coefficient stacks (identity / unimodular / float leading block, equal and unequal "
@@ -543,12 +552,195 @@ def _corr_plscf(ctx, pl):
             ctx.sample({"fn": "pLSCF", "n": n, "Nch": Nch, "Nref": Nref, "Nf": Nf, "sgn": sgn, "err_alpha": ea})
 
 
+# ----------------------------------------------------------------------------- correspondence: the two loops as model functions
+def _corr_poles_loop(ctx, pl):
+    """pLSCF_poles against the model function `plscfPoles` (Model/Poles.lean): the loop over the list positions (rmfd2ac ->
+    ac2mp_poly -> inf->nan), the padding, column ii = list position ii -- table VALUES cell by cell, the shapes, the
+    matrices handed to np.linalg.eig, IndexError for a short Bn."""
+    rng = ctx.rng
+    for k in range(ctx.n(25, 300)):
+        g = ctx.nprng()
+        m = rng.randint(1, 3)
+        l = m
+        ncols = rng.randint(1, 4)
+        if rng.random() < 0.8:
+            orders = list(range(1, ncols + 1))
+        else:
+            orders = sorted(rng.randint(1, 4) for _ in range(ncols))
+        Ad, Bn = [], []
+        for o in orders:
+            a = g.standard_normal((o + 1, m, m)) * 0.7
+            a[-1] = np.eye(m) + 0.3 * g.standard_normal((m, m))
+            if rng.random() < 0.5:
+                a[0] = np.eye(m)
+            Ad.append(a)
+            Bn.append(g.standard_normal((o + 1, l, m)))
+        short = rng.random() < 0.1
+        if short:
+            Bn = Bn[:-1]
+        dt = 10 ** rng.uniform(-3, 0)
+        method = rng.choice(["per", "cor"])
+        nxseg = rng.choice([64, 128, 1024])
+        store = []
+        raised = None
+        try:
+            with _Patch(np.linalg, "eig", _eig_recorder(store)):
+                Fn, Xi, Phi, Lam = pl.pLSCF_poles(Ad, Bn, dt, method, nxseg)
+        except (IndexError, ValueError, np.linalg.LinAlgError) as e:
+            raised = type(e).__name__
+        invdt = 1 / dt
+        tau = -(nxseg - 1) / np.log(0.01)
+        invtau = 1 / (tau * dt)
+        eigs = []
+        for (_Ae, lam_d, V) in store:
+            lam_d = np.asarray(lam_d, complex)
+            V = np.asarray(V, complex)
+            with np.errstate(all="ignore"):
+                logv = np.log(lam_d)
+            eigs.append([{"lamd": Cx(lam_d[ii]), "logv": Cx(logv[ii]) if (math.isfinite(logv[ii].real) and math.isfinite(logv[ii].imag)) else Cx(0),
+                          "q": [Cx(v) for v in V[:, ii]]} for ii in range(len(lam_d))])
+        inp = {"Ad": [_stack(a) for a in Ad], "Bn": [_stack(b) for b in Bn], "eigs": eigs, "invdt": R(invdt), "cor": method == "cor",
+               "invtau": R(float(invtau))}
+        mod = ctx.model("plscf_poles", **inp)
+        key = (tuple(orders), m, method, short)
+        info = {"orders": orders, "m": m, "dt": dt, "method": method, "short_Bn": short}
+        if raised is not None or "raises" in mod:
+            ctx.count(f"poles_loop_raises_{raised}")
+            ctx.corr("pLSCF_poles[loop]", mod.get("raises") == raised, info, mod.get("raises"), raised, key)
+            continue
+        ok, why = True, ""
+        H = max(len(e) for e in eigs)
+        if not (list(Fn.shape) == mod["shape"] == [H, len(Ad)] and Xi.shape == Fn.shape and Lam.shape == Fn.shape and Phi.shape == (len(eigs[-1]), len(Ad), l)
+                and len(mod["eigargs"]) == len(store) == len(Ad)):
+            ok, why = False, "shape"
+        for c in range(len(Ad)):
+            if not ok:
+                break
+            Ae, lam_d, V = store[c]
+            cond = np.linalg.cond(Ad[c][-1])
+            MA = np.array(flmat(mod["eigargs"][c])).reshape(np.asarray(Ae).shape)
+            if max_rel_err(Ae, MA) > 1e-12 * max(cond, 1.0):
+                ok, why = False, f"eig argument {c}"
+                break
+            Cc = pl.rmfd2ac(Ad[c], Bn[c])[1]
+            for r in range(H):
+                mlam, mfn, mxi = mod["lam"][r][c], mod["fn"][r][c], mod["xi"][r][c]
+                il = complex(Lam[r, c])
+                fin = math.isfinite(il.real) and math.isfinite(il.imag)
+                if (mlam is None) != (not fin) or (r >= len(lam_d) and mlam is not None):
+                    ok, why = False, f"lam pattern {r},{c}"
+                    break
+                if mlam is None:
+                    if not math.isnan(Fn[r, c]) or not math.isnan(Xi[r, c]) or mfn is not None or mxi is not None:
+                        ok, why = False, f"fn/xi of blank {r},{c}"
+                        break
+                    continue
+                if abs(cfl(mlam) - il) > 1e-12 * max(abs(il), 1e-300) + 1e-300:
+                    ok, why = False, f"lam value {r},{c}"
+                    break
+                f_m = math.sqrt(fl(mfn)) / (2 * math.pi)
+                if abs(f_m - Fn[r, c]) > 1e-12 * max(abs(Fn[r, c]), 1e-300):
+                    ok, why = False, f"fn value {r},{c}"
+                    break
+                if mxi is None:
+                    if not math.isnan(Xi[r, c]):
+                        ok, why = False, f"xi nan {r},{c}"
+                        break
+                else:
+                    x_m = fl(mxi) * math.sqrt(fl(mfn))
+                    if math.isnan(Xi[r, c]) or abs(x_m - Xi[r, c]) > 1e-12 * max(1.0, abs(Xi[r, c])):
+                        ok, why = False, f"xi value {r},{c}"
+                        break
+            for r in range(len(eigs[-1])):
+                if not ok:
+                    break
+                cell = mod["phi"][r][c]
+                row = np.asarray(Phi[r, c, :], complex)
+                if (cell is None) != bool(np.isnan(row).any()):
+                    ok, why = False, f"phi pattern {r},{c}"
+                    break
+                if cell is not None:
+                    raw = Cc @ np.asarray(V, complex)[:, r]
+                    mags = np.sort(np.abs(raw))[::-1]
+                    cancel = (np.abs(Cc) @ np.abs(np.asarray(V)[:, r])).max()
+                    if (len(mags) > 1 and mags[0] - mags[1] <= 1e-7 * mags[0]) or mags[0] < 1e-6 * cancel:
+                        ctx.count("poles_loop_phi_tie_skipped")
+                    elif np.abs(np.array([cfl(v) for v in cell]) - row).max() > 1e-9 * max(cond, 1.0):
+                        ok, why = False, f"phi value {r},{c}"
+                        break
+        ctx.corr("pLSCF_poles[loop]", ok, info | {"why": why}, None, None, key)
+
+
+def _corr_plscf_all(ctx, pl):
+    """pLSCF against the model function `plscfAll`: ONE sign decides the constraint and the basis (the model is given what
+    np.exp(s*1j*omega*dt) returns for s = -1, +1 and picks by sgn_basf), the loop over the orders, reshape/moveaxis in the
+    model, both lists compared entry by entry; sgn_basf outside {-1, 1} -> UnboundLocalError."""
+    rng = ctx.rng
+    for k in range(ctx.n(16, 150)):
+        g = ctx.nprng()
+        n = rng.randint(1, 3)
+        ordmax = rng.randint(1, n) if rng.random() < 0.9 else 0
+        Nch = rng.randint(1, 3)
+        Nref = rng.randint(1, 2)
+        Nf = rng.randint(2 * (n + 1) + 2, 4 * (n + 1) + 4)
+        dt = 10 ** rng.uniform(-3, 0)
+        sgn = rng.choice([-1, 1]) if k % 6 != 5 else rng.choice([0, 2, -2])
+        Om = _basis(Nf, dt, sgn)
+        if rng.random() < 0.5:
+            Sy = g.standard_normal((Nref, Nch, Nf)) + 1j * g.standard_normal((Nref, Nch, Nf))
+            kind = "random"
+        else:
+            A, B = _gen_AB(g, n, Nch, Nref)
+            Sy, _ = _spectrum(A, B, _basis(Nf, dt, sgn if sgn in (-1, 1) else 1))
+            kind = "rational"
+        Sy = np.round(Sy * 2**20) / 2**20
+        raised = None
+        try:
+            Ad, Bn = pl.pLSCF(Sy, dt, ordmax, sgn)
+        except (UnboundLocalError, np.linalg.LinAlgError) as e:
+            raised = type(e).__name__
+        syj = [[[Cx(Sy[o, c, f]) for f in range(Nf)] for c in range(Nch)] for o in range(Nref)]
+        omof = [[s_, [Cx(z) for z in _basis(Nf, dt, s_)]] for s_ in sorted({-1, 1, sgn})]
+        mod = ctx.model("plscf_all", Sy=syj, ordmax=ordmax, sgn=sgn, OmOf=omof)
+        key = (ordmax, Nch, Nref, sgn, kind)
+        info = {"n": n, "ordmax": ordmax, "Nch": Nch, "Nref": Nref, "Nf": Nf, "dt": dt, "sgn": sgn, "kind": kind}
+        ctx.count(f"plscf_all_sgn_{sgn}")
+        if raised is not None or "raises" in mod:
+            ctx.corr("pLSCF[all orders]", mod.get("raises") == raised, info, mod.get("raises"), raised, key)
+            continue
+        ok = len(Ad) == len(mod["Ad"]) == ordmax and len(Bn) == len(mod["Bn"]) == ordmax
+        worst = 0.0
+        for j in range(ordmax if ok else 0):
+            al = np.array([flmat(b) for b in mod["Ad"][j]])
+            be = np.array([flmat(b) for b in mod["Bn"][j]])
+            if al.shape != Ad[j].shape or be.shape != Bn[j].shape or al.shape != (j + 2, Nch, Nch) or be.shape != (j + 2, Nref, Nch):
+                ok = False
+                break
+            e = max(max_rel_err(Ad[j], al), max_rel_err(Bn[j], be))
+            if e > 1e-7:
+                # rounding of an ill-conditioned constrained solve?  the normal matrix of that order from the one-order op
+                mo = ctx.model("plscf_order", n=j + 1, hi=sgn == 1, Om=[Cx(z) for z in Om], Sy=syj)
+                M = np.array(flmat(mo["M"]))
+                M22 = M[: (j + 1) * Nch, : (j + 1) * Nch] if sgn == 1 else M[Nch:, Nch:]
+                if np.linalg.cond(M22) > 1e7:
+                    ctx.skipped += 1
+                    ctx.count("plscf_all_cond_skipped")
+                    continue
+                ok = False
+                break
+            worst = max(worst, e)
+        ctx.corr("pLSCF[all orders]", ok, info, {"worst": worst}, None, key)
+
+
+
 def correspondence(ctx):
     pl = _pl()
     _corr_rmfd2ac(ctx, pl)
     _corr_ac2mp(ctx, pl)
     _corr_pad(ctx, pl)
     _corr_plscf(ctx, pl)
+    _corr_poles_loop(ctx, pl)
+    _corr_plscf_all(ctx, pl)
 
 
 # ----------------------------------------------------------------------------- oracle
